@@ -26,15 +26,8 @@ func runC09(c *Ctx) {
 	recoveryErrors(c, "R2")
 	fsmValidate(c, "R3")
 	p := c.P
-	apply := p.MustMethod(pkgConsensus, "RaftNode", "Apply")
-	var applyAdd *ssa.Function
-	eachInstr(apply, func(in ssa.Instruction) {
-		if cc := callCommon(in); cc != nil {
-			if f := cc.StaticCallee(); f != nil && f.Pkg == apply.Pkg && len(callsIn(f, func(k *ssa.CallCommon) bool { return k.IsInvoke() && k.Method.Name() == "Mutate" })) > 0 {
-				applyAdd = f
-			}
-		}
-	})
+	// the writer by role, exactly as the apply rules resolve it
+	apply, applyAdd := fsmApplyGuard(newCtx(p, c.Prop, c.Tier), "R4")
 	if applyAdd != nil {
 		sub := newCtx(p, c.Prop, c.Tier)
 		fsmApplyAdd(sub, "R4", applyAdd)
